@@ -869,11 +869,20 @@ func brokenMonolithic(r *vh.Run, i int) {
 			return
 		}
 	}
+	// ... and monolithic POSTs that arrive completely while their client is already gone (the request context is
+	// cancelled): whether the store still completes them or gives up - a session nobody knows never stays behind
+	gone, cancelGone := context.WithCancel(context.Background())
+	cancelGone()
+	for k := 0; k < 6; k++ {
+		b := []byte(fmt.Sprintf("monolithic content of a client that left %d %d", i, k))
+		gs := vh.Do(srv, vh.Req{Method: "POST", URL: "/v2/m/blobs/uploads/?digest=" + vh.DigestOf("sha256", b), Body: b, Ctx: gone})
+		r.Count(fmt.Sprintf("monolithic_of_departed_client_%dxx", gs.Status/100), 1)
+	}
 	r.Count("broken_monolithic_trials", 1)
 	ids, _ := srv.VerifUploads(context.Background(), "m")
 	wit["open_sessions"] = len(ids)
 	if len(ids) != 1 || ids[0] != id {
-		r.Violation("conservation:sessions:broken-monolithic", fmt.Sprintf("%s store: one session was opened by the client, %d monolithic POSTs broke off and were refused; the store now holds %d sessions (the client's own among them: %v)", kind, nbroken, len(ids), len(ids) > 0 && contains(ids, id)), wit)
+		r.Violation("conservation:sessions:broken-monolithic", fmt.Sprintf("%s store: one session was opened by the client, %d monolithic POSTs broke off and were refused, six more arrived from a client that had left; the store now holds %d sessions (the client's own among them: %v)", kind, nbroken, len(ids), len(ids) > 0 && contains(ids, id)), wit)
 		return
 	}
 	if g := vh.Do(srv, vh.Req{Method: "GET", URL: path}); g.Status != 204 || g.H.Get("Range") != "0-5" {
